@@ -282,6 +282,11 @@ func runC01OneMessageTargets(c *Ctx) {
 }
 
 func runC01(c *Ctx) {
+	defer runC01BinaryCodecKeepsUnknown(c)
+	// clause shared with C20: the message types a schema is decoded with are the schema's own
+	defer c.ImportRules("C20", "C20.4")
+	// clause shared with C09: envelope flag bits are decoded by the client's own protocol
+	defer c.ImportRules("C09", "C09.3")
 	defer runC01EmptyUnenvelopedMessage(c)
 	defer runC01OneMessageTargets(c)
 	p := c.P
@@ -563,7 +568,10 @@ func runC01(c *Ctx) {
 			bad int
 			why string
 		}
-		res := map[string]*verdict{"skip-only-when-nothing-changes": {}, "decompress-before-decode": {}, "encode-when-codec-differs": {}, "recompress-when-compressed": {}}
+		res := map[string]*verdict{"skip-only-when-nothing-changes": {}, "decompress-before-decode": {}, "encode-when-codec-differs": {}, "recompress-when-compressed": {}, "compress-when-peer-cannot-be-told": {}}
+		// (defect D70) the message-level flag 'the outgoing leg has no envelope to say "this one is
+		// not compressed" while its headers declare a compression'; absent on trees without the repair
+		alwaysF := p.Field("message", "compressAlways")
 		counted := 0
 		// one success path may expand into several variants when it calls a helper of the
 		// decision function in mid-flight (a case body moved into its own method): each
@@ -574,6 +582,9 @@ func runC01(c *Ctx) {
 			recursive, stored bool
 		}
 		flags := []*types.Var{sameCodecF, wasComprF, sameComprF}
+		if alwaysF != nil {
+			flags = append(flags, alwaysF)
+		}
 		truthOf := func(cp CFGPath) map[*types.Var]bool {
 			out := map[*types.Var]bool{}
 			for cond, truth := range cp.Truth {
@@ -729,17 +740,30 @@ func runC01(c *Ctx) {
 					res["recompress-when-compressed"].bad++
 				}
 			}
+			if !recursive && storedStage && !has("decode") && wcK && !wc {
+				// a leg that ends at the send stage with a message that arrived uncompressed: leaving
+				// it uncompressed is right only where the peer can be told (an envelope flag), i.e.
+				// on paths that know the compress-always flag is false; and it is never decompressed
+				ca, caK := false, false
+				if alwaysF != nil {
+					ca, caK = tv(alwaysF)
+				}
+				if (!has("compress") && !(caK && !ca)) || has("decompress") {
+					res["compress-when-peer-cannot-be-told"].bad++
+				}
+			}
 			if !recursive && storedStage && has("decompress") && !has("decode") && !has("compress") {
 				// read -> send with same codec: decompress must be followed by compress
 				res["recompress-when-compressed"].bad++
 			}
 		}
-		for _, k := range []string{"skip-only-when-nothing-changes", "decompress-before-decode", "encode-when-codec-differs", "recompress-when-compressed"} {
+		for _, k := range []string{"skip-only-when-nothing-changes", "decompress-before-decode", "encode-when-codec-differs", "recompress-when-compressed", "compress-when-peer-cannot-be-told"} {
 			text := map[string][2]string{
-				"skip-only-when-nothing-changes": {"the stage is advanced without any work only on paths with sameCodec true and (wasCompressed false or sameCompression true)", "a path advances the message to the send stage without decoding/re-encoding or re-compressing although codec or compression differ: bytes in the source encoding are sent under the target's content-type"},
-				"decompress-before-decode":       {"a compressed message is decompressed before it is decoded", "a path decodes a message that was compressed without decompressing it first"},
-				"encode-when-codec-differs":      {"when the codecs differ the decoded message is re-encoded before it is sent", "a path sends without re-encoding although the codecs differ"},
-				"recompress-when-compressed":     {"a message that arrived compressed is re-compressed for the outgoing leg (the envelope flag says so)", "a path leaves a message that arrived compressed uncompressed (or only decompresses it) while its envelope flag / declared encoding says compressed"},
+				"skip-only-when-nothing-changes":    {"the stage is advanced without any work only on paths with sameCodec true and (wasCompressed false or sameCompression true)", "a path advances the message to the send stage without decoding/re-encoding or re-compressing although codec or compression differ: bytes in the source encoding are sent under the target's content-type"},
+				"decompress-before-decode":          {"a compressed message is decompressed before it is decoded", "a path decodes a message that was compressed without decompressing it first"},
+				"encode-when-codec-differs":         {"when the codecs differ the decoded message is re-encoded before it is sent", "a path sends without re-encoding although the codecs differ"},
+				"compress-when-peer-cannot-be-told": {"a message that arrived uncompressed goes out uncompressed only on paths that know the outgoing leg can say so (the compress-always flag is false), and is never decompressed", "a message that arrived with its compressed flag unset is sent on as it is (or run through the decompressor) on a path that does not know whether the outgoing leg has an envelope flag to say so: to a peer without envelopes (Connect unary, REST) it goes out uncompressed under a Content-Encoding that declares a compression"},
+				"recompress-when-compressed":        {"a message that arrived compressed is re-compressed for the outgoing leg (the envelope flag says so)", "a path leaves a message that arrived compressed uncompressed (or only decompresses it) while its envelope flag / declared encoding says compressed"},
 			}[k]
 			c.Check(res[k].bad == 0 && counted > 0, "C01.4", FuncName(adv), k, adv.Pos(), text[0]+" ("+itoa(counted)+" success paths)", itoa(res[k].bad)+" path(s): "+text[1])
 		}
@@ -1113,4 +1137,58 @@ func readerFuncs(p *Prog, recvT types.Type) []*ssa.Function {
 		}
 	}
 	return SortedFuncs(set)
+}
+
+// runC01BinaryCodecKeepsUnknown: C01.10 (seed C01l).  The transcoder sits between peers whose
+// schema may be newer than its own: fields it does not know are carried in the message's unknown
+// set and written out again, so a decode/re-encode leg (Connect GET with encoding=proto, any
+// body-preparing leg) is still the identity.  That holds only as long as the options of the
+// built-in binary codec neither discard unknown fields nor merge into the reused target.
+// Decided over every construction of google.golang.org/protobuf/proto.UnmarshalOptions in the
+// shipped packages: DiscardUnknown and Merge are never set to anything but constant false.
+func runC01BinaryCodecKeepsUnknown(c *Ctx) {
+	p := c.P
+	c.Rule("C01.10", "the binary codec's unmarshal options neither discard unknown fields nor merge", 1)
+	n := 0
+	for _, fn := range p.Funcs {
+		if !p.inScope(fn) {
+			continue
+		}
+		seen := map[ssa.Value]bool{}
+		ForEachInstr(fn, func(in ssa.Instruction) {
+			st, ok := in.(*ssa.Store)
+			if !ok {
+				return
+			}
+			fa, ok := st.Addr.(*ssa.FieldAddr)
+			if !ok {
+				return
+			}
+			f := FieldOfAddr(fa)
+			owner := fa.X.Type()
+			if pt, isP := owner.(*types.Pointer); isP {
+				owner = pt.Elem()
+			}
+			nm, isN := owner.(*types.Named)
+			if !isN || nm.Obj().Pkg() == nil || nm.Obj().Pkg().Path() != "google.golang.org/protobuf/proto" || nm.Obj().Name() != "UnmarshalOptions" {
+				return
+			}
+			if !seen[fa.X] {
+				seen[fa.X] = true
+				n++
+			}
+			if f.Name() != "DiscardUnknown" && f.Name() != "Merge" {
+				return
+			}
+			k, isK := ConstBool(st.Val)
+			c.Check(isK && !k, "C01.10", FuncName(fn), "binary-codec-options:"+f.Name(), st.Pos(),
+				f.Name()+" is constant false",
+				"the binary codec's unmarshal options set "+f.Name()+": fields the transcoder's schema does not know are dropped (or a reused message accumulates earlier content) on every leg that decodes and re-encodes, although the call succeeds - the backend receives fewer fields than the client sent")
+		})
+	}
+	if n == 0 {
+		c.Bad("C01.10", "package", "binary-codec-options", token.NoPos, "no construction of proto.UnmarshalOptions found in the shipped packages: shape changed")
+	} else {
+		c.OK("C01.10", "package", "binary-codec-options", token.NoPos, itoa(n)+" construction(s) of proto.UnmarshalOptions, none sets DiscardUnknown or Merge")
+	}
 }
